@@ -19,6 +19,10 @@ MANIFEST = dict(
          "and the delivered payload are compared through length + FNV-1a 64.",
     technique="Lean 4 proof (invariant + simulation/refinement over arrival histories) + model/impl correspondence",
     design="DESIGN.md §6 C06")
+MANIFEST["note"] += (" Constants and limits of the C++ source that the model restates (translator/gen_limits.py -> Gen/Limits.lean: "
+                     "compiled probe + preprocessed function bodies at named anchors) are tied to the model's numerals by the "
+                     "theorems of lean/TinsModel/Props/Limits/C06.lean (audit: Audit/LimitsC06.lean); tools/LIMITS-INVENTORY.md lists "
+                     "what is tied and what is not.")
 
 BOUNDARY_ISNS = [0, 1, 2**31 - 1, 2**31, 2**32 - 1] + [2**32 - k for k in range(2, 26)]
 
